@@ -209,7 +209,7 @@ claim('C16',
           'is the last total); the sum form follows by telescoping (hand lemma)',
           'user code does not call add_value on sources / sinks directly',
           'Batch.value == sum of the values of the contained items (each through its own value property) is machine-checked '
-          '(lsum with the congruence lemma for finite sums as an axiom); System.get_net_value_of_assets == sum of the values of '
+          '(lsum; the congruence lemma for finite sums the solver is given is itself discharged by induction -- obligations lsum.congruence.base / .step, from the two defining equations only); System.get_net_value_of_assets == sum of the values of '
           'all registered assets is machine-checked as well (A3: a filtered generator contributes 0 for the elements it skips; '
           'nothing is skipped because the registry holds Assets only); the value of a nested batch is the uninterpreted '
           'batch_value(heap)',
